@@ -146,6 +146,8 @@ def gen_item(ch, pool, ctx, opts, depth, pos):
     if (opts.bitmaps and opts.operators and not ctx.in_204 and not ctx.in_numop and not ctx.in_rep
             and ctx.min_plain >= 1 and ctx.budget >= 6 and not ctx.in_208):
         choices.append((opts.w_bitmap, 'bitmap'))
+        if opts.marker_under_ops and depth == 0:
+            choices.append((max(1, opts.w_bitmap // 2), 'static_markers'))
         if opts.w_204:
             choices.append((1, 'qa_in_204'))
     if (opts.bitmaps and opts.operators and opts.bitmap_in_rep and depth == 0 and not ctx.in_rep and not ctx.in_204
@@ -326,6 +328,20 @@ def g_203(ch, pool, ctx, opts, depth):
     use = list(defs)
     if ch.bool():
         use.append(_pick_element(ch, pool, ctx, opts))
+    lead = []
+    cands = [sid for sid in sorted(pool.small_seq_numeric) if _seq_ok(pool.seqinfo[sid], ctx, opts)] if opts.sequences else []
+    if cands and not ctx.in_numop and not ctx.in_204 and ch.bool(1, 3):
+        # the new reference value is for an element that a Table D sequence reaches; the sequence is used inside the
+        # scope and, often, once more outside it (the same sequence with and without the new reference value)
+        sid = ch.choice(cands)
+        defs = [ch.choice(pool.small_seq_numeric[sid])]
+        use = [sid] + ([defs[0]] if ch.bool(1, 3) else [])
+        if ch.bool(2, 3):
+            lead = [sid]
+        ctx.features.update(['sequence', '203_over_sequence_member'])
+        _reserve(ctx, 2 + pool.seqinfo[sid].n_expanded // 4)
+        if not ctx.in_rep:
+            ctx.min_plain += pool.seqinfo[sid].n_fields_min * (2 if lead else 1)
     if not ctx.in_rep:
         ctx.min_plain += len(use)
     _reserve(ctx, len(use) + n_def)
@@ -345,10 +361,13 @@ def g_203(ch, pool, ctx, opts, depth):
         out = [op, 203000 + y] + defs + [203255, cancel] + use
     else:
         out = [203000 + y] + defs + [203255] + use
+    out = lead + out
     unclosed = (opts.allow_unclosed and not opts.balanced_only and depth == 0 and not ctx.in_rep
                 and ch.bool(1, 8))
     if not unclosed:
         out.append(203000)
+        if lead and ch.bool():
+            out.append(lead[0])      # and once more after the cancellation
     else:
         ctx.features.add('unclosed')
     return out
@@ -530,6 +549,42 @@ def g_qa_in_204(ch, pool, ctx, opts, depth):
     return blk
 
 
+def g_static_markers(ch, pool, ctx, opts, depth):
+    """A marker block whose values are laid out statically: an n-bit bitmap that is all zeros (the value source is
+    told so through the 'all_bits_zero' feature), one marker outside any replication, a fixed replication of
+    n - 2 markers -- under a 201/202/207/208 pair opened and closed inside the body, or plain -- and a last marker
+    outside again.  The only construct with marker operators that are not inside a replication."""
+    if ctx.epoch_len is not None or ctx.stored_bitmap or ctx.min_plain < 3:
+        return g_elem(ch, pool, ctx, opts, depth)
+    n = ch.int(3, min(ctx.min_plain, 5))
+    op = ch.weighted([(2, 224), (2, 223), (1, 232)])
+    blk = [op * 1000]
+    reuse = ch.bool(1, 3)
+    if reuse:
+        blk.append(236000)
+    blk += [101000 + n, 31031]
+    if op == 224:
+        blk.append(8023)
+    marker = op * 1000 + 255
+    wrap = ch.weighted([(3, (201129, 201000)), (2, (202129, 202000)), (2, (207001, 207000)), (1, (208002, 208000)), (2, None)])
+    body = [wrap[0], marker, wrap[1]] if wrap else [marker]
+    first_wrapped = wrap is not None and ch.bool(1, 4)
+    blk += ([wrap[0], marker, wrap[1]] if first_wrapped else [marker])
+    blk += [100000 + 1000 * len(body) + (n - 2)] + body
+    blk += [marker]
+    ctx.epoch_len = n
+    ctx.epoch_delayed = False
+    ctx.stored_bitmap = reuse
+    ctx.min_plain += 1
+    _reserve(ctx, len(blk))
+    ctx.features.update(['bitmap', 'all_bits_zero', 'markers_outside_replication'])
+    if ch.bool(1, 3):
+        blk.append(235000)
+        ctx.epoch_len = None
+        ctx.stored_bitmap = False
+    return blk
+
+
 def g_rep_bitmap(ch, pool, ctx, opts, depth):
     """A replication whose body opens and closes a whole back-reference epoch: k elements, an
     operator block over n <= k of them, 235000."""
@@ -560,7 +615,7 @@ def g_rep_bitmap(ch, pool, ctx, opts, depth):
 
 
 _GEN = {'rep_bitmap': g_rep_bitmap, 'elem': g_elem, 'seq': g_seq, 'fixed': g_fixed, 'delayed': g_delayed, '201': g_201, '202': g_202,
-        '207': g_207, '208': g_208, '204': g_204, '205': g_205, '206': g_206, '203': g_203, '221': g_221, 'qa_in_204': g_qa_in_204,
+        '207': g_207, '208': g_208, '204': g_204, '205': g_205, '206': g_206, '203': g_203, '221': g_221, 'qa_in_204': g_qa_in_204, 'static_markers': g_static_markers,
         'bitmap': g_bitmap}
 
 
